@@ -159,33 +159,31 @@ example :
 `invPy` is the assert block of `_assert_integer_constraints` as written.  The inductive
 invariant is `InvOk a := invPy a = some true ∧ CanonMv a ∧ FiniteConst a`
 (Spec/BoundsInv.lean, a decidable `Bool`):
-* `FiniteConst` — no "constant infinity" (`modulus = modular_value = "infinity"`): the
-  crash root F8, produced only by `$upper_bound`/`$lower_bound` of an argument with an
-  infinite bound; it passes the asserts and then crashes `+ - * ?:`;
+* `FiniteConst` — no "constant infinity" (`modulus = modular_value = "infinity"`), which
+  passes the asserts and crashes `+ - * ?:`; since the fix of F8 (`$upper_bound` /
+  `$lower_bound` of an infinite bound yield the unbounded annotation) no transfer
+  function produces it;
 * `CanonMv` — `0 ≤ modular_value < modulus`: what every transfer function produces
   (`% modulus`) and what the asserts force whenever one bound is finite; needed because the
   asserts never look at `modular_value` of a value without finite bounds
   (`C05_inv_needs_canonical_counterexample`).
 Proved: every transfer function maps `InvOk` arguments to a result — it does **not raise** —
 that is `InvOk` again (`C05_inv_transfer`, `C05_inv_transfer_max`), leaves and literals
-satisfy it (`C05_inv_leaves`), hence every annotation `abs` attaches to a subexpression
-of an expression without an infinite `$upper_bound`/`$lower_bound` (`FiniteBounds`,
-decidable) passes `_assert_integer_constraints` (`C05_inv_preserved`).  The hypothesis
-is necessary (`C05_inv_preserved_counterexample`, `C05_crash_counterexample` = open
-findings).  Totality: `abs` returns on the whole arithmetic fragment (`C05_no_crash_arith`).  Not stated:
-"`abs e ≠ none` for every well-typed `e`" with comparisons — a comparison raises `KeyError`
-through `ir_util.constant_value` (`C05_crash_counterexample`, third conjunct: open finding),
-and the model has no type checker to exclude ill-typed comparison operands.
+satisfy it (`C05_inv_leaves`), hence **every** annotation `abs` attaches passes
+`_assert_integer_constraints` (`C05_inv_preserved`, no side condition on the expression).
+Totality: `abs` returns on the whole arithmetic fragment (`C05_no_crash_arith`).  Not stated:
+"`abs e ≠ none` for every well-typed `e`" with comparisons — the model has no type checker to
+exclude ill-typed comparison operands.
 -/
 
 /-- **Every transfer function preserves the invariant and does not raise.**
 `+`, `-`, `*` (const×const, const×var, var×var), `?:` with an unknown condition,
-`$upper_bound`/`$lower_bound` of a finite bound. -/
+`$upper_bound`/`$lower_bound`. -/
 theorem C05_inv_transfer (l r : AVal) (hl : InvOk l = true) (hr : InvOk r = true) :
     (∀ isSub, ∃ a, additive isSub l r = some a ∧ InvOk a = true) ∧
     (∃ a, multiplicative l r = some a ∧ InvOk a = true) ∧
     (∃ a, choiceHull l r = some a ∧ InvOk a = true) ∧
-    (∀ up c, (if up then l.max else l.min) = .fin c → InvOk (boundFn up l) = true) := by
+    (∀ up, InvOk (boundFn up l) = true) := by
   have hl' := InvS_of_InvOk hl
   have hr' := InvS_of_InvOk hr
   refine ⟨fun s => ?_, ?_, ?_, ?_⟩
@@ -195,8 +193,8 @@ theorem C05_inv_transfer (l r : AVal) (hl : InvOk l = true) (hr : InvOk r = true
     exact ⟨a, h1, InvOk_of_InvS h2⟩
   · obtain ⟨a, h1, h2⟩ := choiceHull_inv hl' hr'
     exact ⟨a, h1, InvOk_of_InvS h2⟩
-  · intro up c h
-    rw [boundFn_inv h]; exact InvOk_const c
+  · intro up
+    exact InvOk_of_InvS (boundFn_invS up l)
 
 /-- non-vacuity: the var×var example of the soundness theorem, on the annotations -/
 example :
@@ -225,13 +223,12 @@ theorem C05_inv_leaves (k : LeafKind) (size : Option Int) (v : Int) :
   ⟨leafRange_invOk k size, by decide, InvOk_const v⟩
 
 /-- **`_assert_integer_constraints` holds of every annotation** the analysis attaches to an
-expression that contains no `$upper_bound`/`$lower_bound` of an infinite bound
-(`FiniteBounds`, the decidable hypothesis excluding F8) and whose preset
-`$logical_value` annotations satisfy the invariant (`GivenOk`); by `abs`'s recursion the same
-holds at every subexpression.  The conclusion is the strengthened, inductive invariant. -/
-theorem C05_inv_preserved (e : Expr) (hg : GivenOk e = true) (hf : FiniteBounds e = true)
+expression whose preset `$logical_value` annotations satisfy the invariant (`GivenOk`); by
+`abs`'s recursion the same holds at every subexpression.  The conclusion is the
+strengthened, inductive invariant. -/
+theorem C05_inv_preserved (e : Expr) (hg : GivenOk e = true)
     (a : AVal) (h : abs e = some (.int a)) : invPy a = some true ∧ InvOk a = true := by
-  have h1 : InvOk a = true := InvOk_of_InvS (inv_aux e hg hf _ h)
+  have h1 : InvOk a = true := InvOk_of_InvS (inv_aux e hg _ h)
   refine ⟨?_, h1⟩
   simp only [InvOk, Bool.and_eq_true, beq_iff_eq] at h1
   exact h1.1.1
@@ -242,31 +239,29 @@ example :
     let e : Expr := .bin .mul
       (.bin .add (.bin .mul (.ileaf 0 .uint (some 12)) (.const 12)) (.upper (.ileaf 2 .bcd (some 7))))
       (.max [.choice (.bleaf 0) (.ileaf 1 .sint (some 9)) (.const 15), .const 3])
-    GivenOk e = true ∧ FiniteBounds e = true ∧
+    GivenOk e = true ∧
     abs e = some (.int ⟨.fin 237, .fin 12550845, .fin 1, .fin 0⟩) := by
   decide +kernel
 
 /-- **The analysis never raises on the arithmetic fragment.**  For every integer expression
 over literals, integer leaves of any kind/size, `$static_size_in_bits`, `$logical_value`,
 references to virtual fields, `+ - *`, `$max`, `$upper_bound`, `$lower_bound` and `?:` on a
-boolean field or literal (`ArithOnly`), without an infinite `$upper_bound`/`$lower_bound`
-(`FiniteBounds`): `compute_constraints_of_expression` returns — no assert fails, no
-`int("infinity")`, no `"infinity" % n` — an integer annotation satisfying the invariant.
-(Comparisons are outside the fragment: their annotation calls `ir_util.constant_value`,
-which raises `KeyError` — `C05_crash_counterexample`.) -/
-theorem C05_no_crash_arith (e : Expr) (h : ArithOnly e = true) (hg : GivenOk e = true)
-    (hf : FiniteBounds e = true) : ∃ a, abs e = some (.int a) ∧ InvOk a = true := by
-  obtain ⟨a, h1, h2⟩ := total_aux e h hg hf
+boolean field or literal (`ArithOnly`): `compute_constraints_of_expression` returns — no
+assert fails, no `int("infinity")`, no `"infinity" % n` — an integer annotation satisfying
+the invariant.  (Comparisons are outside the fragment only because the model has no type
+checker for their operands.) -/
+theorem C05_no_crash_arith (e : Expr) (h : ArithOnly e = true) (hg : GivenOk e = true) :
+    ∃ a, abs e = some (.int a) ∧ InvOk a = true := by
+  obtain ⟨a, h1, h2⟩ := total_aux e h hg
   exact ⟨a, h1, InvOk_of_InvS h2⟩
 
-/-- non-vacuity, and necessity of `FiniteBounds`: the F8 input is in the fragment -/
+/-- non-vacuity; the former F8 input is in the fragment -/
 example :
     let e : Expr := .choice (.bleaf 0)
       (.bin .sub (.vref (.bin .mul (.ileaf 0 .sint (some 16)) (.const (-6)))) (.upper (.ileaf 2 .bcd (some 12))))
       (.max [.given 3 ⟨.fin 4, .posInf, .fin 8, .fin 4⟩, .lower (.ileaf 4 .uint (some 3))])
-    ArithOnly e = true ∧ GivenOk e = true ∧ FiniteBounds e = true ∧
-    ArithOnly (.bin .mul (.upper (.ileaf 0 .uint none)) (.const 2)) = true ∧
-    FiniteBounds (.bin .mul (.upper (.ileaf 0 .uint none)) (.const 2)) = false := by
+    ArithOnly e = true ∧ GivenOk e = true ∧
+    ArithOnly (.bin .mul (.upper (.ileaf 0 .uint none)) (.const 2)) = true := by
   decide +kernel
 
 /-- **`invPy` alone is not inductive**: an annotation without finite bounds passes the
@@ -277,25 +272,15 @@ theorem C05_inv_needs_canonical_counterexample :
     invPy a = some true ∧ FiniteConst a = true ∧ additive false a (constRange 1) = none := by
   decide +kernel
 
-/-- **F8: the invariant is not preserved without the finiteness hypothesis.**
-`$upper_bound(x)` of an unbounded `x` is the "constant infinity"; it *passes*
-`_assert_integer_constraints`, and then `* 2` raises (ValueError), `+ z` raises
-(TypeError), `- $upper_bound(x)` trips the assert in `_add`, `?:` raises in
-`_shared_modular_value`.  Replayed on the real code: findings.d/C05.json. -/
-theorem C05_inv_preserved_counterexample :
-    let inf := boundFn true unboundedLeaf
-    let z := leafRange .uint (some 8)
-    invPy inf = some true ∧ invPy z = some true ∧ invPy (constRange 2) = some true ∧
-    multiplicative inf (constRange 2) = none ∧ additive false inf z = none ∧
-    additive true inf inf = none ∧ choiceHull inf z = none := by
-  decide +kernel
-
-/-- the same on whole expressions, plus the KeyError of `ir_util.constant_value` for a
-    `$upper_bound` with a constant operand inside a comparison -/
-theorem C05_crash_counterexample :
-    abs (.bin .mul (.upper (.ileaf 0 .uint none)) (.const 2)) = none ∧
-    abs (.bin .eq (.upper (.const 3)) (.const 3)) = none ∧
-    cv (.upper (.const 3)) = .crash := by
+/-- F8 repaired: `$upper_bound` of an unbounded argument is the unbounded annotation, and
+    arithmetic on it returns (the 64-bit gate then rejects the expression as unbounded);
+    `ir_util.constant_value` of a bound function is read from the annotation -/
+example :
+    abs (.bin .mul (.upper (.ileaf 0 .uint none)) (.const 2)) =
+      some (.int ⟨.negInf, .posInf, .fin 2, .fin 0⟩) ∧
+    abs (.bin .eq (.upper (.const 3)) (.const 3)) = some (.bool (some true)) ∧
+    cv (.upper (.const 3)) = .val (.int 3) ∧
+    cv (.upper (.ileaf 0 .uint none)) = .unknown := by
   decide +kernel
 
 /-!
